@@ -1,5 +1,5 @@
 (** Property C13 — a program the analyzer accepts can always be lowered. *)
-From Tx3 Require Import Base Tir Surface Lower Analyze Lower_proofs.
+From Tx3 Require Import Base Tir Surface Lower Analyze Lower_proofs Analyze_names.
 
 (** every transaction of a program the (modelled) analyzer accepts lowers to an IR *)
 Theorem C13_accepted_programs_lower : forall p,
@@ -36,6 +36,23 @@ Definition c13_example : sprogram :=
 Example C13_example_accepted : analyze_ok c13_example = true /\ is_ok (lower c13_example "t") = true.
 Proof. split; vm_compute; reflexivity. Qed.
 
+(** in an accepted program the index of a variant constructor and the field list it is matched
+    against belong to one declaration of the type, and two cases never share an index
+    (finding F09-2, repaired: two cases of one name were accepted) *)
+Theorem C13_case_lookup_unambiguous : forall p td cname decl,
+  analyze_ok p = true -> td ∈ sp_types p -> (cname, decl) ∈ td_cases td ->
+  find (fun cs => bool_decide (fst cs = cname)) (td_cases td) = Some (cname, decl)
+  /\ exists i, index_of (fun cs => bool_decide (fst cs = cname)) (td_cases td) = Some i
+               /\ td_cases td !! i = Some (cname, decl).
+Proof. exact case_lookup_unambiguous. Qed.
+Theorem C13_case_indexes_distinct : forall p td c1 c2 i,
+  analyze_ok p = true -> td ∈ sp_types p ->
+  index_of (fun cs => bool_decide (fst cs = c1)) (td_cases td) = Some i ->
+  index_of (fun cs => bool_decide (fst cs = c2)) (td_cases td) = Some i -> c1 = c2.
+Proof. exact case_indexes_distinct. Qed.
+
 Print Assumptions C13_accepted_programs_lower.
 Print Assumptions C13_accepted_expressions_lower.
 Print Assumptions C13_static_type_stable.
+Print Assumptions C13_case_lookup_unambiguous.
+Print Assumptions C13_case_indexes_distinct.
